@@ -240,6 +240,9 @@ func (s *Sim) restart(ns *nodeState) {
 	s.trace("restart n%d image(files=%d unsynced=%d lost=%d)", ns.id, ns.image.files, ns.image.dirty, ns.image.lost)
 	s.fault("restart")
 	ns.restarts++
+	if s.ttlIssued {
+		ns.restartAfterTTL = true
+	}
 	if ns.gotMsgSnap {
 		ns.restartedAfterMsgSnap = true
 		s.probe("restart-after-installing-msgsnap")
